@@ -588,8 +588,9 @@ class Deque(Sequence):
         # forward iterator and a reverse iterator, the reverse method could
         # avoid making copies of the values.
         temp = Deque(iterable=reversed(self))
-        self._clear()
-        self._extend(temp)
+        with self._cache.transact(retry=True):
+            self._clear()
+            self._extend(temp)
         directory = temp.directory
         temp._cache.close()
         del temp
@@ -625,23 +626,25 @@ class Deque(Sequence):
             steps %= len_self
 
             for _ in range(steps):
-                try:
-                    value = self._pop()
-                except IndexError:
-                    return
-                else:
-                    self._appendleft(value)
+                with self._cache.transact(retry=True):
+                    try:
+                        value = self._pop()
+                    except IndexError:
+                        return
+                    else:
+                        self._appendleft(value)
         else:
             steps *= -1
             steps %= len_self
 
             for _ in range(steps):
-                try:
-                    value = self._popleft()
-                except IndexError:
-                    return
-                else:
-                    self._append(value)
+                with self._cache.transact(retry=True):
+                    try:
+                        value = self._popleft()
+                    except IndexError:
+                        return
+                    else:
+                        self._append(value)
 
     __hash__ = None  # type: ignore
 
